@@ -186,13 +186,29 @@ theorem pendingNF_none_af (l : List Task) (h : ∀ x ∈ l, x.allowFailure = fal
     rw [pendingNF_cons, h a (by simp), ih (fun x hx => h x (by simp [hx]))]
     simp
 
-/-- With the repaired predicate every merged task has the head task's `allowFailure`. -/
-theorem merged_same_af (t : Task) (rest : List Task) :
-    ∀ o ∈ merged t (stopOnAllowFailureChange t) rest, o.allowFailure = t.allowFailure := by
+/-- The stop-combine predicate never lets a task with another `allowFailure` through. -/
+def StopsOnAfChange (stopOf : Task → Option (Task → Bool)) : Prop :=
+  ∀ t tsk : Task, tsk.allowFailure ≠ t.allowFailure → ∃ f, stopOf t = some f ∧ f tsk = true
+
+theorem stopsOnAfChange_repaired : StopsOnAfChange stopOnAllowFailureChange := by
+  intro t tsk h
+  exact ⟨_, rfl, by simpa using h⟩
+
+theorem stopsOnAfChange_withSkippedSync : StopsOnAfChange stopOnAllowFailureChangeOrSkippedSync := by
+  intro t tsk h
+  refine ⟨_, rfl, ?_⟩
+  have : (tsk.allowFailure != t.allowFailure) = true := by simpa using h
+  simp [this]
+
+/-- With such a predicate every merged task has the head task's `allowFailure`. -/
+theorem merged_same_af (stopOf : Task → Option (Task → Bool)) (hst : StopsOnAfChange stopOf)
+    (t : Task) (rest : List Task) :
+    ∀ o ∈ merged t (stopOf t) rest, o.allowFailure = t.allowFailure := by
   intro o ho
-  have := (takeWhile_mem ho).2
-  simp only [combinable, stopOnAllowFailureChange, Bool.and_eq_true, Bool.not_eq_true',
-    bne_eq_false_iff_eq] at this
-  exact this.2
+  have hc := (takeWhile_mem ho).2
+  by_cases h : o.allowFailure = t.allowFailure
+  · exact h
+  · obtain ⟨f, hf, hfo⟩ := hst t o h
+    simp [combinable, hf, hfo] at hc
 
 end ShellOp.Retry
